@@ -145,7 +145,7 @@ func EInner(r *rand.Rand) Num {
 func GNum(r *rand.Rand) Num {
 	switch r.Intn(12) {
 	case 0:
-		return N([]string{"0.1", "0.2", "0.3", "2.675", "1.005", "0.125", "0.0005", "0.0025", "0.005", "0.015", "1e-3", "3.333", "123456.789", "123456.7895", "0", "1", "-0.1", "1e2", "2.5e-1", "-1E1", "1e+2", "0.045", "0.995", "9.995", "99.995", "010", "0755", "-012", "007.5"}[r.Intn(29)])
+		return N([]string{"0.1", "0.2", "0.3", "2.675", "1.005", "0.125", "0.0005", "0.0025", "0.005", "0.015", "1e-3", "3.333", "123456.789", "123456.7895", "0", "1", "-0.1", "1e2", "2.5e-1", "-1E1", "1e+2", "0.045", "0.995", "9.995", "99.995", "010", "0755", "-012", "007.5", "1234567890.12", "98765432101234.5", "1e15", "4503599627370497", "-2147483648.5", "65536.005"}[r.Intn(35)])
 	case 1:
 		return N(fmt.Sprintf("%d", r.Intn(2000)-300))
 	case 2:
@@ -483,9 +483,12 @@ func RandomNotes(r *rand.Rand) []Note {
 	var ns []Note
 	k := 1 + r.Intn(3)
 	for i := 0; i < k; i++ {
-		o := NameOpts{Unicode: true, Spaces: true, MaxLen: 10}
+		o := NameOpts{Unicode: true, Spaces: true, MaxLen: 10, Punct: ".,;'()&%+*=!?@_-/\""}
 		if r.Intn(2) == 0 {
-			ns = append(ns, Note{Key: Name(r, NameOpts{Spaces: true, MaxLen: 8}), Text: Name(r, o)})
+			// the value of a keyed note may itself contain colons (only the first one separates)
+			v := o
+			v.Punct += ":"
+			ns = append(ns, Note{Key: Name(r, NameOpts{Spaces: true, MaxLen: 8}), Text: Name(r, v)})
 		} else {
 			ns = append(ns, Note{Text: Name(r, o)})
 		}
